@@ -649,7 +649,7 @@ def check_methods(spec, ctx):
 
 @st.composite
 def strat_corrupt(draw, tier="quick"):
-    t = draw(S.transcript_spec(max_exons=3, max_len=7, frameshift_prob=0, coding=draw(st.sampled_from([True, True, False]))))
+    t = draw(S.transcript_spec(max_exons=3, max_len=7, frameshift_prob=0, cds_overlap_prob=6, coding=draw(st.sampled_from([True, True, False]))))
     f = draw(S.feature_spec(max_blocks=3, max_len=7))
     hi = max(t["exons"][-1][1], f["blocks"][-1][1])
     n = hi + draw(st.integers(1, 5))
@@ -672,7 +672,7 @@ def strat_methods(draw, tier="quick"):
         sp["obj"], sp["other"] = o, o2
         hi = max(max(x[1] for x in o["blocks"]), max(x[1] for x in o2["blocks"]))
     elif kind == "tx":
-        o = draw(S.transcript_spec(max_exons=4, max_len=8, coding=draw(st.sampled_from([True, True, False]))))
+        o = draw(S.transcript_spec(max_exons=4, max_len=8, cds_overlap_prob=6, coding=draw(st.sampled_from([True, True, False]))))
         hi = o["exons"][-1][1]
         sp["obj"] = o
     elif kind == "feat":
@@ -680,7 +680,7 @@ def strat_methods(draw, tier="quick"):
         hi = o["blocks"][-1][1]
         sp["obj"] = o
     elif kind == "gene":
-        o = draw(S.gene_spec(max_tx=3, max_exons=3, max_len=7, same_strand=draw(st.booleans())))
+        o = draw(S.gene_spec(max_tx=3, max_exons=3, max_len=7, cds_overlap_prob=8, same_strand=draw(st.booleans())))
         hi = max(t["exons"][-1][1] for t in o["transcripts"])
         sp["obj"] = o
     elif kind == "fc":
